@@ -77,3 +77,20 @@ pub fn analyze(src: &str) -> Option<Vec<Diag>> {
 pub fn line_of(src: &str, off: usize) -> usize {
     src.as_bytes()[..off.min(src.len())].iter().filter(|b| **b == b'\n').count() + 1
 }
+
+/// `analyze` on a thread of its own: several analyses inside one case must
+/// not share the analyzer's thread-local tables (`Analyzer::clear` leaves
+/// e.g. the unsafe table of the previous text behind).  A panic is re-raised.
+pub fn analyze_fresh(src: &str) -> Option<Vec<Diag>> {
+    let r = std::thread::scope(|s| {
+        std::thread::Builder::new()
+            .stack_size(8 << 20)
+            .spawn_scoped(s, || analyze(src))
+            .expect("spawn")
+            .join()
+    });
+    match r {
+        Ok(x) => x,
+        Err(p) => std::panic::resume_unwind(p),
+    }
+}
